@@ -23,6 +23,9 @@ pub fn on_init(id: u32) {
 pub fn on_call(id: u32, t: u8, h: u64) {
     ev(id, K::Call, t, h);
     plan::maybe_panic(id, K::Call);
+    if plan::is_deep() {
+        std::hint::black_box(plan::burn(256 * 1024));
+    }
     if plan::is_gate(id) && !ASYNC_MODE.load(std::sync::atomic::Ordering::Relaxed) {
         crate::sched::arrive_blocking(id);
     }
